@@ -67,7 +67,16 @@ def _pure_number(e, depth=0):
         return True
     if isinstance(e, ast.Call) and isinstance(e.func, ast.Attribute) and isinstance(e.func.value, ast.Name) and e.func.value.id in ("np", "math", "numpy") and e.func.attr in ("log", "sqrt", "exp", "log2", "log10", "log1p", "tanh", "cos", "sin", "float64", "float32") and not e.keywords:
         return all(_pure_number(a, depth + 1) for a in e.args)
+    if isinstance(e, ast.Call) and isinstance(e.func, ast.Name) and e.func.id == "float" and len(e.args) == 1 and not e.keywords:
+        return _pure_number(e.args[0], depth + 1)
     return False
+
+
+def _strip_float(e):
+    """float(<number>) is that number"""
+    while isinstance(e, ast.Call) and isinstance(e.func, ast.Name) and e.func.id == "float" and len(e.args) == 1:
+        e = e.args[0]
+    return e
 
 
 def _callable_chain(e):
@@ -224,6 +233,9 @@ def _dotted(e):
     return None
 
 
+_MODULE_NUMBERS = {}
+
+
 class _Expr(ast.NodeTransformer):
     """getattr(o, "c") -> o.c ; operator.f(a, b) -> a <op> b ; (f if c else g)(args) -> f(args) if c else g(args) ;
     (lambda p: E)(args) -> E[p := args] ; map(f, S) -> (f(t) for t in S) ; f(**dict(zip(names, values))) ->
@@ -316,6 +328,11 @@ class _Expr(ast.NodeTransformer):
                 table = self.class_tables[v.attr]
             if table is not None:
                 node.comparators = [ast.copy_location(ast.Tuple(elts=[copy.deepcopy(k) for k in table.keys], ctx=ast.Load()), v)]
+        return node
+
+    def visit_Name(self, node):
+        if isinstance(node.ctx, ast.Load) and node.id in _MODULE_NUMBERS:
+            return ast.copy_location(copy.deepcopy(_MODULE_NUMBERS[node.id]), node)
         return node
 
     def visit_Attribute(self, node):
@@ -1405,6 +1422,22 @@ class Desugar:
         except Exception:
             pass
         self._module_classes = [c for c in ast.walk(tree) if isinstance(c, ast.ClassDef)]
+        # module-level numeric constants written as formulas (_LOG_2PI = np.log(2 * np.pi)), bound once and never
+        # rebound anywhere in the module: read as their value
+        global _MODULE_NUMBERS
+        stores = {}
+        for n in ast.walk(tree):
+            if isinstance(n, ast.Name) and isinstance(n.ctx, (ast.Store, ast.Del)):
+                stores[n.id] = stores.get(n.id, 0) + 1
+            elif isinstance(n, ast.arg):
+                stores[n.arg] = stores.get(n.arg, 0) + 2
+            elif isinstance(n, (ast.Global, ast.Nonlocal)):
+                for x in n.names:
+                    stores[x] = stores.get(x, 0) + 2
+        _MODULE_NUMBERS = {}
+        for st in tree.body:
+            if isinstance(st, ast.Assign) and len(st.targets) == 1 and isinstance(st.targets[0], ast.Name) and stores.get(st.targets[0].id) == 1 and (st.targets[0].id.startswith("_") or st.targets[0].id.isupper()) and not isinstance(st.value, ast.Constant) and _pure_number(st.value):
+                _MODULE_NUMBERS[st.targets[0].id] = _strip_float(st.value)
         self._module_tables = _literal_tables(tree.body, _names_stored_toplevel(tree.body))
         tree.body = self.block(tree.body, None, None)
         return tree
@@ -1427,7 +1460,7 @@ class Desugar:
                     consts[st.targets[0].id] = ast.copy_location(ast.Tuple(elts=list(v.args[0].elts), ctx=ast.Load()), v)
                 elif _pure_number(v):
                     # a class-level numeric constant written as a formula: _LOG_TWO_PI = np.log(2 * np.pi)
-                    consts[st.targets[0].id] = v
+                    consts[st.targets[0].id] = _strip_float(v)
         for k in list(consts):
             if k in assigned_on_self or not k.isupper() and not k.startswith("_"):
                 del consts[k]
@@ -1559,7 +1592,7 @@ class Desugar:
             elif isinstance(value, list):
                 setattr(st, field, [ex.visit(v) if isinstance(v, ast.AST) else v for v in value])
         res = [st]
-        for rewrite in (self._setattr_stmt, self._index_copy, self._inplace_stmt, self._chain, self._walrus, self._reduce, self._for, self._unpack, self._cond_tuple, self._lift_callee_choice):
+        for rewrite in (self._setattr_stmt, self._diagonal_store, self._index_copy, self._inplace_stmt, self._chain, self._walrus, self._reduce, self._for, self._unpack, self._cond_tuple, self._lift_callee_choice):
             nxt = []
             for s in res:
                 r = rewrite(s)
@@ -1834,6 +1867,16 @@ class Desugar:
             if isinstance(nm, ast.Constant) and isinstance(nm.value, str) and nm.value.isidentifier() and _is_simple(obj):
                 tgt = ast.copy_location(ast.Attribute(value=obj, attr=nm.value, ctx=ast.Store()), st)
                 return [ast.fix_missing_locations(ast.copy_location(ast.Assign(targets=[tgt], value=val), st))]
+        return None
+
+    def _diagonal_store(self, st):
+        """M.diagonal().fill_(c) / M.diagonal().copy_(v) as a statement, M a local: a store into the main diagonal,
+        written  M[__diag__] = c  (the index name is a marker the matrix-word algebra reads as the diagonal)"""
+        if isinstance(st, ast.Expr) and isinstance(st.value, ast.Call) and isinstance(st.value.func, ast.Attribute) and st.value.func.attr in ("fill_", "copy_") and len(st.value.args) == 1 and not st.value.keywords:
+            recv = st.value.func.value
+            if isinstance(recv, ast.Call) and isinstance(recv.func, ast.Attribute) and recv.func.attr == "diagonal" and not recv.args and not recv.keywords and isinstance(recv.func.value, ast.Name):
+                tgt = ast.Subscript(value=recv.func.value, slice=ast.Name(id="__diag__", ctx=ast.Load()), ctx=ast.Store())
+                return [ast.fix_missing_locations(ast.copy_location(ast.Assign(targets=[tgt], value=st.value.args[0]), st))]
         return None
 
     def _inplace_stmt(self, st):
